@@ -6,11 +6,13 @@ C03 driver.  `A` = the model's trace, ledger and done flag equal the implementat
 `Spec` (about the IMPLEMENTATION's output, written against the declarative sender automaton of DownstreamSpec and the
 case only — no regenerated definition is used):
   1. the downstream sender calls are accepted by the sender automaton (headers once and first, one end of stream, at most one
-     reset, nothing after either)                                                          — theorem `sender_once`
+     reset, nothing after either; no ConnectionPool.NewStream after the response headers)  — theorems `sender_once`, `no_attempt_after_headers`
   2. the clean-up body ran exactly once iff the exchange is done, never twice               — theorem `clean_once`
   3. a finished exchange has a classified outcome (complete reply / reset / client gone / one-way), never silence; an
-     unfinished started exchange is two-way, has delivered no terminal event yet and waits for a live upstream request         — theorem `outcome_total`
-  4. once the global timeout fired after the start, the exchange is finished                — theorem `timeout_completes`
+     unfinished started exchange is two-way, has delivered no terminal event yet and waits for a live upstream request         — theorems `outcome_total`, `parked_has_live_upstream`
+  4. once the global timeout fired after the start, the exchange is finished — unless the head of a streamed response
+     was forwarded (the upstream HAS answered: MOSN's response timeout covers the wait for the response, not the transfer
+     of its body; the wait then ends with the body, a reset or the client's departure)     — theorems `timeout_completes`, `outcome_total`
   5. replies MOSN generates itself carry the documented status (404 no route, 502 no healthy host / connection failure,
      503 pool overflow, the configured code of a direct response)                          — theorems `error_reply_codes`, `route_reply`
 A `mc <cfg> <amb> <limit>` case runs the explicit-state exploration of the model (every schedule up to the state limit)
@@ -54,7 +56,7 @@ def spec (cs : Case) (i : Impl) : Bool :=
     && nLog t == (if i.done then 1 else 0)
     && (!i.done || terminal || cs.cfg.oneway || cs.sched.any isClientGone)
     && (i.done || !started || (!cs.cfg.oneway && !terminal && i.up ≥ 1))
-    && (!timeoutAfterStart cs.sched || i.done)
+    && (!timeoutAfterStart cs.sched || i.done || (cs.sched.any isStreamHead && t.any isHeaders))
     && codesOk cs t
 
 def run (caseToks impl : List String) : String :=
